@@ -16,8 +16,13 @@ def table_api(arg):
             c.parent = t
             c2 = Column("cX")
             c2.parent = t2
-            out.append({"name": name, "str": str(t), "schema": str(t.schema), "table": t.raw_name, "eq": t == t2, "hash_eq": hash(t) == hash(t2),
-                        "col_eq": c == c2, "col_hash_eq": hash(c) == hash(c2), "in_set": len({t, t2}) == 1 and len({c, c2}) == 1})
+            rec = {"name": name, "str": str(t), "schema": str(t.schema), "table": t.raw_name, "eq": t == t2, "hash_eq": hash(t) == hash(t2),
+                   "col_eq": c == c2, "col_hash_eq": hash(c) == hash(c2), "in_set": len({t, t2}) == 1 and len({c, c2}) == 1}
+            if not any(ch in name for ch in "\"`["):
+                # unquoted names compare case-insensitively: the same name in another letter case is the same table
+                tu, tl = Table(name.upper()), Table(name.lower())
+                rec["other_case_same"] = tu == tl == t and hash(tu) == hash(tl) == hash(t) and len({tu, tl, t}) == 1 and str(tu) == str(tl)
+            out.append(rec)
         except Exception as e:
             out.append({"name": name, "exc": type(e).__name__})
     return out
